@@ -18,7 +18,7 @@ if ! git apply --check $DST/patch.diff 2>/tmp/apply_$NAME.err; then
 fi
 git apply $DST/patch.diff
 /venv/bin/python $DST/demo.py > $DST/demo_patched.log 2>&1; RC_PATCHED=$?
-/venv/bin/python -m pytest -q -p no:cacheprovider --timeout=900 --continue-on-collection-errors --junitxml=/tmp/cf_$NAME.xml > /tmp/cf_$NAME.pytest.log 2>&1
+OMP_NUM_THREADS=1 OPENBLAS_NUM_THREADS=1 /venv/bin/python -m pytest -q -p no:cacheprovider --timeout=900 --continue-on-collection-errors --junitxml=/tmp/cf_$NAME.xml > /tmp/cf_$NAME.pytest.log 2>&1
 python3 - $NAME $RC_CLEAN $RC_PATCHED <<'PY'
 import json, sys, xml.etree.ElementTree as ET
 name, rc_clean, rc_patched = sys.argv[1], int(sys.argv[2]), int(sys.argv[3])
